@@ -862,7 +862,7 @@ impl<'a> FormatParser<'a> {
                     Field::DayName(NameStyle::Lower)
                 }
             };
-        } else if remain.len() >= 2 {
+        } else if remain.len() >= 2 && remain[1].eq_ignore_ascii_case(&b'y') {
             return match &remain[0..2] {
                 b"DY" => {
                     self.advance(2);
@@ -879,7 +879,9 @@ impl<'a> FormatParser<'a> {
             };
         }
 
-        Field::Invalid
+        // "DA" not followed by 'Y': the longest token here is the single letter 'D'
+        self.advance(1);
+        Field::DayOfWeek
     }
 
     #[inline]
